@@ -27,6 +27,11 @@ from .core import Explorer, Sym, SymBool, SymArr, term_of, PathAbort, Inconclusi
 from . import solve
 
 
+class HarnessMismatch(Exception):
+  """the harness no longer matches the shape of the source it drives (e.g. a sliced loop body acquired a free
+  variable the harness cannot supply): reported as a harness problem (exit 2), never as a VIOLATION"""
+
+
 class Reject(Exception):
   """concrete mode: the sampled input does not satisfy an assumption."""
 
@@ -245,6 +250,9 @@ class SymCtx:
     """an outcome that must not be reachable (e.g. an unexpected exception type)"""
     return self.require(name, z3.BoolVal(False), detail=detail)
 
+  def mismatch(self, detail):
+    raise HarnessMismatch(detail)
+
 
 class ConcCtx:
   symbolic = False
@@ -395,6 +403,9 @@ class ConcCtx:
   def fail(self, name, detail=None):
     return self.require(name, False, detail=detail)
 
+  def mismatch(self, detail):
+    raise HarnessMismatch(detail)
+
 
 # --------------------------------------------------------------------------------------------
 # running cases
@@ -420,6 +431,8 @@ def run_symbolic(case):
   try:
     paths = exr.run_all(body)
     for p in paths:
+      if isinstance(p.exc, HarnessMismatch):
+        raise p.exc
       if p.exc is not None:
         msg = ''.join(traceback.format_exception_only(type(p.exc), p.exc)).strip()[:300]
         path_exc.append(msg)
@@ -435,6 +448,8 @@ def run_symbolic(case):
                             'nice': False, 'detail': msg, 'goal': 'no exception'})
   except Inconclusive as e:
     status, err = 'inconclusive', str(e)
+  except HarnessMismatch as e:
+    status, err = 'harness_error', 'harness does not match the source: %s' % e
   except core.SymbolicRealisation as e:
     status, err = 'harness_error', 'symbolic value realised: %s\n%s' % (e, traceback.format_exc()[-1500:])
   except Exception as e:
@@ -480,6 +495,10 @@ def run_concrete(case, values=None, seed=0, n=1, tol=None):
       if values is not None:
         return 1, [{'rejected': True}]
       continue
+    except HarnessMismatch as e:
+      failures.append({'names': ['inconclusive:harness does not match the source: %s' % e], 'values': dict(ctx.drawn)})
+      done += 1
+      break
     except Exception as e:
       failures.append({'names': ['exception:' + type(e).__name__], 'values': dict(ctx.drawn),
                        'choices': list(ctx.choices), 'error': traceback.format_exc()[-1200:]})
